@@ -4,9 +4,10 @@ Grammar      [sign]digits[.digits](digits[.digits])       sign in {'+', ' ', '-'
 Meaning      value = the signed decimal before the parenthesis; last printed unit q = 10^-(decimals of the value);
              error = the decimal in the parenthesis if it carries a point (then it must have the same number of
              decimals), else (integer in the parenthesis) * q.
-Judgement    |printed value - value| <= q/2 and |printed error - error| <= q/2, each with a slack of 4 ulp of the
-             float concerned (the float is not a decimal: scaling it by a power of ten and rounding the product can
-             differ from rounding the exact number by that much, not more);
+Judgement    |printed value - value| <= q/2 EXACTLY (the value is printed by the correctly rounded float formatting of the
+             exact binary number: no slack); |printed error - error| <= q/2 with a slack of 2 ulp of the error (the error
+             is scaled by a power of ten in floating point before it is rounded: one rounding of the product, one of the
+             power of ten beyond 1e22);
              the error shows `significance` digits: 10^(s-1) <= error/q <= 10^s (the upper end only by rounding
              carry, i.e. only when the exact error is below 10^s units), unless no decimals are printed (q = 1, integer floor), where only the lower bound applies.
 All arithmetic on decimal.Decimal built from the exact binary value of the floats (Decimal(float) is exact).
@@ -53,7 +54,7 @@ def parse(s):
     return p
 
 
-def judge(s, value, dvalue, significance, slack_ulp=4, value_ulp=None, dvalue_ulp=None):
+def judge(s, value, dvalue, significance, slack_ulp=2, value_ulp=None, dvalue_ulp=None, value_slack_ulp=0):
     """List of (tag, detail) describing every way in which the string s fails to denote (value, dvalue) rounded
     to `significance` digits of the error.  Empty list = the string is right.
     value_ulp / dvalue_ulp: spacing of the floating-point type the number was held in (default: double precision);
@@ -74,7 +75,7 @@ def judge(s, value, dvalue, significance, slack_ulp=4, value_ulp=None, dvalue_ul
             out.append(('error-not-within-half-a-unit-of-the-last-digit', {'string': s, 'printed_error': str(p.error), 'error': repr(dvalue), 'unit': str(p.q),
                                                                            'deviation_in_units': float(de / p.q)}))
         dvv = abs(p.value - v)
-        if dvv > half + slack_ulp * Decimal(math.ulp(value) if value_ulp is None else float(value_ulp)):
+        if dvv > half + value_slack_ulp * Decimal(math.ulp(value) if value_ulp is None else float(value_ulp)):
             out.append(('value-not-within-half-a-unit-of-the-last-digit', {'string': s, 'printed_value': str(p.value), 'value': repr(value), 'unit': str(p.q),
                                                                            'deviation_in_units': float(dvv / p.q)}))
         lo = Decimal(10) ** (significance - 1)
